@@ -4,6 +4,8 @@ from harness import templates as T
 from harness.mutate import mutation, batches, base_content
 from oracle.content import content
 
+THOROUGH_STRIDE = 5      # the registered thorough tier runs every 5th instance of the full cross product (vp_check.py --tier full runs all)
+
 ASSUMPTIONS = [
     'one fault per document; six base documents that together contain every grammar rule; inserted fragment of K characters '
     '(quick 1-2, thorough up to 3) at every token boundary outside text tokens; single-character substitution at every structural '
